@@ -56,6 +56,7 @@ Inductive body :=
 | BOpen2 (r p : nat)               (* second look; create the endpoint *)
 | BPortDel (r p : nat)             (* the exit hook's critical section *)
 | BPortClose (r : nat)
+| BUnlink (o r : nat)              (* the close hook of in-port r: out-port o forgets its link to r *)
 (* process *)
 | BHook (p : nat) (h : hookitem)   (* proc.AddExitHook(h): runs h at once on a terminated process *)
 | BExit (p : nat).                 (* proc.Exit: flip and take the hooks *)
@@ -94,7 +95,8 @@ Record lstate := mkls {
   shooks : list (nat * list nat);      (* Local.storeHooks: process -> waiters (possibly empty) *)
   cells : list cell;
   pents : list (nat * nat);            (* (port, process): the port holds an endpoint for the process *)
-  pcfg : list (bool * list nat);       (* per port: is it an out-port; the in-ports it is linked to *)
+  pcfg : list (bool * list nat);       (* per port: is it an out-port; the in-ports it was linked to at the start *)
+  pdyn : list (list nat * bool);       (* per port: the in-ports it is linked to now; not closed yet (it still has its open hook and close hooks) *)
   procs : list proc;
   threads : list thread;
   log : list event
@@ -138,20 +140,24 @@ Definition get_thread (st : lstate) (t : nat) : thread := nth t (threads st) (mk
 Definition get_proc (st : lstate) (p : nat) : proc := nth p (procs st) (mkproc false []).
 Definition get_cell (st : lstate) (g : nat) : cell := nth g (cells st) (mkcell 0 0 false true).
 Definition port_out (st : lstate) (r : nat) : bool := fst (nth r (pcfg st) (false, [])).
-Definition port_ins (st : lstate) (r : nat) : list nat := snd (nth r (pcfg st) (false, [])).
+Definition port_ins (st : lstate) (r : nat) : list nat := fst (nth r (pdyn st) ([], false)).
+Definition port_open (st : lstate) (r : nat) : bool := snd (nth r (pdyn st) ([], false)).
+Definition port_ins0 (st : lstate) (r : nat) : list nat := snd (nth r (pcfg st) (false, [])).
 
 Definition with_local (st : lstate) e l s : lstate :=
-  mkls e l s (cells st) (pents st) (pcfg st) (procs st) (threads st) (log st).
+  mkls e l s (cells st) (pents st) (pcfg st) (pdyn st) (procs st) (threads st) (log st).
 Definition with_cells (st : lstate) c : lstate :=
-  mkls (eager st) (lazy st) (shooks st) c (pents st) (pcfg st) (procs st) (threads st) (log st).
+  mkls (eager st) (lazy st) (shooks st) c (pents st) (pcfg st) (pdyn st) (procs st) (threads st) (log st).
 Definition with_pents (st : lstate) pe : lstate :=
-  mkls (eager st) (lazy st) (shooks st) (cells st) pe (pcfg st) (procs st) (threads st) (log st).
+  mkls (eager st) (lazy st) (shooks st) (cells st) pe (pcfg st) (pdyn st) (procs st) (threads st) (log st).
 Definition with_procs (st : lstate) ps : lstate :=
-  mkls (eager st) (lazy st) (shooks st) (cells st) (pents st) (pcfg st) ps (threads st) (log st).
+  mkls (eager st) (lazy st) (shooks st) (cells st) (pents st) (pcfg st) (pdyn st) ps (threads st) (log st).
 Definition with_threads (st : lstate) ts : lstate :=
-  mkls (eager st) (lazy st) (shooks st) (cells st) (pents st) (pcfg st) (procs st) ts (log st).
+  mkls (eager st) (lazy st) (shooks st) (cells st) (pents st) (pcfg st) (pdyn st) (procs st) ts (log st).
+Definition with_pdyn (st : lstate) pd : lstate :=
+  mkls (eager st) (lazy st) (shooks st) (cells st) (pents st) (pcfg st) pd (procs st) (threads st) (log st).
 Definition add_log (st : lstate) (e : event) : lstate :=
-  mkls (eager st) (lazy st) (shooks st) (cells st) (pents st) (pcfg st) (procs st) (threads st) (log st ++ [e]).
+  mkls (eager st) (lazy st) (shooks st) (cells st) (pents st) (pcfg st) (pdyn st) (procs st) (threads st) (log st ++ [e]).
 
 (* ---- the code of the closures ---- *)
 Definition lock_of_res (r : res) : lockid := LRes r.
@@ -173,6 +179,7 @@ Definition lock_of (b : body) : option (lockid * mode) :=
   | BLzEnter _ g | BLzDone _ g => Some (LLazy g, MW)
   | BOpen1 r _ => Some (LRes (RPort r), MR)
   | BOpen2 r _ | BPortDel r _ | BPortClose r => Some (LRes (RPort r), MW)
+  | BUnlink o _ => Some (LRes (RPort o), MW)
   | BOpen0 _ _ | BHook _ _ | BExit _ => None
   end.
 
@@ -263,17 +270,31 @@ Definition exec (b : body) (st : lstate) : lstate * list instr :=
   | BOpen2 r p =>
       if has_pent st r p then (st, [Rel (LRes (RPort r)) MW; Ret (ROpen false)])
       else
+        let hook := if port_open st r then [Cb (CbOpen r p)] else [] in
         (with_pents st ((r, p) :: pents st),
          Rel (LRes (RPort r)) MW ::
          (if port_out st r
-          then Cb (CbOpen r p) :: Body (BHook p (HClean (RPort r))) :: map (fun i => Body (BOpen0 i p)) (port_ins st r)
-          else [Body (BHook p (HClean (RPort r))); Cb (CbOpen r p)]) ++ [Ret (ROpen true)])
+          then hook ++ Body (BHook p (HClean (RPort r))) :: map (fun i => Body (BOpen0 i p)) (port_ins st r)
+          else Body (BHook p (HClean (RPort r))) :: hook) ++ [Ret (ROpen true)])
   | BPortDel r p =>
       (with_pents st (filter (fun e => negb (pent_eqb (r, p) e)) (pents st)), [Rel (LRes (RPort r)) MW])
   | BPortClose r =>
-      (* InPort.Close forgets its readers; OutPort.Close keeps its (closed) writers until their process exits *)
-      ((if port_out st r then st else with_pents st (filter (fun e => negb (Nat.eqb (fst e) r)) (pents st))),
-       [Rel (LRes (RPort r)) MW; Ret RUnit])
+      (* Close forgets links, open hooks and close hooks.  InPort.Close also forgets its readers and runs its
+         close hooks (every out-port that ever linked to it unlinks); OutPort.Close keeps its (closed) writers
+         until their process exits *)
+      let st1 := with_pdyn st (set_nth r ([], false) (pdyn st)) in
+      if port_out st r then (st1, [Rel (LRes (RPort r)) MW; Ret RUnit])
+      else
+        (with_pents st1 (filter (fun e => negb (Nat.eqb (fst e) r)) (pents st)),
+         Rel (LRes (RPort r)) MW ::
+         (if port_open st r
+          then flat_map (fun o => if port_out st o && existsb (Nat.eqb r) (port_ins0 st o)
+                                  then [Acq (LRes (RPort o)) MW; Body (BUnlink o r)] else [])
+                        (rev (seq 0 (length (pcfg st))))
+          else []) ++ [Ret RUnit])
+  | BUnlink o r =>
+      (with_pdyn st (set_nth o (filter (fun i => negb (Nat.eqb i r)) (port_ins st o), port_open st o) (pdyn st)),
+       [Rel (LRes (RPort o)) MW])
   | BHook p h =>
       let pr := get_proc st p in
       if alive pr then (with_procs st (set_nth p (mkproc true (phooks pr ++ [h])) (procs st)), [])
@@ -361,7 +382,7 @@ Definition l_step (st : lstate) (op : lop) : lstate :=
   end.
 
 Definition l_init (nthreads : nat) (ports : list (bool * list nat)) : lstate :=
-  mkls [] [] [] [] [] ports [] (repeat (mkthr None []) nthreads) [].
+  mkls [] [] [] [] [] ports (map (fun c => (snd c, true)) ports) [] (repeat (mkthr None []) nthreads) [].
 Definition l_run (nthreads : nat) (ports : list (bool * list nat)) (ops : list lop) : lstate :=
   fold_left l_step ops (l_init nthreads ports).
 
